@@ -214,6 +214,16 @@ def classify(name, body):
                 and all(s.startswith("let ") and not DB_TOUCH.search(s) for s in lead[:-1]):
             return shape, "pure prelude"
     # --- explicit transaction
+    # a bare `{ .. }` block (scoping the transaction-bound handle) is read as its statements
+    flat = []
+    for x in stmts:
+        while x.startswith("{"):
+            e = match_brace(x, 0)
+            flat += split_stmts(x[1:e])
+            x = x[e + 1:].strip()
+        if x:
+            flat.append(x)
+    stmts = flat
     if b.count(".transaction()") == 1 and len(re.findall(r"\btx ?\. ?commit\(\)", b)) == 1:
         k = 0
         while k < len(stmts) and PURE_LET.match(stmts[k]):
@@ -240,6 +250,9 @@ def classify(name, body):
             for s in before:
                 if re.search(r"\.ok\(\)|let _ =|unwrap_or|if let Ok", s):
                     return "Other", "error discarded before commit"
+                # the transaction-scoped wallet handle, built exactly as `transactionally` builds it
+                if re.fullmatch(r"let mut wdb = WalletDb \{ conn: SqlTransaction\(&tx\),[^();?]*\}", s):
+                    continue
                 if not (s.endswith("?") or s.endswith("? }") or re.search(r"\?\s*\}$", s) or s.endswith("? ;")):
                     return "Other", "statement before commit does not end in `?`: " + s[:60]
             return "TxnExplicit", ""
@@ -709,10 +722,10 @@ class C02(Config):
               "Local Open Scope N_scope.")
     bin = "c02"
     release_too = False
-    n_tags = 60
+    n_tags = 64
     shard_size = 100
     harness_timeout = 7200
-    classes = {1: "C02-remove-retained-checkpoints-commits-per-pool"}
+    classes = {}
     rule = ("every write operation reachable through the public API (WalletWrite, OutputLockStore, WalletCommitmentTrees on "
             "WalletDb; PoolMigrations store writes incl. store_proved_transaction / take_transaction_for_broadcast on a really "
             "proved transaction) on database states reached by a generated wallet history (plain; with locks, stored "
@@ -732,6 +745,8 @@ class C02(Config):
         "the operating system and file system (fsync, rename, file copies as crash images)",
         "rusqlite hooks (commit/rollback/update hook, progress handler), sqlite3_get_autocommit and SQLite's error log "
         "(SQLITE_CONFIG_LOG: 'statement aborts' / 'abort at') as the source of the event trace",
+        "harness/wallet/Cargo.toml enables transparent-key-import so that the cfg-gated write methods exist in the build that is driven; "
+        "the extractor treats every cfg(feature)-gated method as present",
         "vlib/props/c02.py shape extractor (comment/string blanking, brace matching, statement splitting) and the hand-justified entries bound to body hashes",
         "harness/wallet/src/bin/c02.rs (canonical dump: all tables of sqlite_master, rows sorted, uuid columns blanked, SHA-256 truncated to 63 bits); harness/hist",
     ]
